@@ -226,7 +226,7 @@ CHECKS = {
                        "IsCompleted must equal the 40-line sequential definition of the subject kind (replay rules before and after termination, async final value, unicast "
                        "single subscriber and backlog). Concurrent histories (call/return stamps, final subscriber logs as reads) must be linearizable w.r.t. the same "
                        "definition; callbacks must not overlap and must respect the grammar."
-                       " Buffer size 0 is part of the range; publications racing with the terminal call behind a spin barrier, followed by late subscribers. Every Error of a history carries an error value of its own (the stored terminal is the first one); every operation on a subject with a self-unsubscribing subscriber runs under a watchdog (a delivery during which the subscriber leaves must return)."),
+                       " Buffer size 0 is part of the range; publications racing with the terminal call behind a spin barrier, followed by late subscribers. Every Error of a history carries an error value of its own (the stored terminal is the first one); every operation on a subject with a self-unsubscribing subscriber runs under a watchdog (a delivery during which the subscriber leaves must return). Subjects of an interface element type fed values of mixed dynamic types, nil among them (also as the behaviour subject's initial value): every subscriber's log equals that of the int subject."),
         "level_note": ("Two listed unicast findings are reported as KNOWN-FINDING. In the concurrent check the late-subscriber rule of unicast is taken as implemented (it is judged by "
                        "the sequential check). Concurrency coverage is statistical."),
     },
